@@ -18,6 +18,7 @@ def run(prog, tier, extra=None):
     res = Result("C13", "other")
     R1 = res.rule("C13.compare", "accept paths of Block::validate pass cv.F == self.F for the rebroadcast commitment", floor=2)
     R3 = res.rule("C13.longest-chain-lookup", "consensus values look blocks up by height only through the longest-chain index", floor=1)
+    R4 = res.rule("C13.handled", "each still-unspent output of an expiring transaction is rebroadcast or collected as fees", floor=1)
     R2 = res.rule("C13.derive", "Block::generate writes the rebroadcast commitment only under the ATR arm, for every ATR transaction", floor=3)
     bv = BlockValidate(prog)
     b, ch = bv.body, bv.ch
@@ -111,6 +112,79 @@ def run(prog, tier, extra=None):
         res.add(Finding(R3, "C13.longest-chain-lookup|none", "the consensus value computation no longer looks the expiring block up through the longest-chain index", cg.bodies[GCV].loc(0)))
     else:
         res.sample({"rule": R3, "longest_chain_lookups": n_lc, "bodies_in_scope": len(live), "verdict": "all by-height lookups use the longest-chain index"})
+
+    # R4: every still-unspent output collected from an expiring transaction is handled: once a slip was queued (after Slip::validate
+    # said it is still spendable) the code cannot move on to the next transaction without entering the loop that either rebroadcasts
+    # it or collects it as fees, and each iteration of that loop does one of the two
+    from .. import gate as _gate
+    from ..expr import Chaser as _Ch
+    from .c09 import recv_local
+    gcv = cg.bodies[GCV]
+    chq = _Ch(gcv)
+    val = _gate.bool_switch_edges(gcv, chq, lambda e: e[0] == "call" and e[1].endswith("slip::Slip::validate"))
+    pushes = {}
+    for bb, t in gcv.calls():
+        if (call_name(t) or "") == "std::vec::Vec::push" and len(t["args"]) == 2:
+            k = recv_local(gcv, t["args"][0])
+            if k is not None and "slip::Slip" in gcv.ty(k)["s"]:
+                pushes.setdefault(k, set()).add(bb)
+    unreach = gcv.reachable(0, deleted_edges=val["true"])
+    queues = {k: P for k, P in pushes.items() if val["sites"] and all(p not in unreach for p in P)}
+    handling = set()
+    for bb, t in gcv.calls():
+        n = call_name(t) or ""
+        if n.endswith("Transaction::create_rebroadcast_transaction") or n.endswith("Transaction::create_rebroadcast_bound_transaction"):
+            handling.add(bb)
+    for bb, blk in enumerate(gcv.blocks):
+        for st in blk["s"]:
+            if st[0] == "=" and any(isinstance(pr, list) and pr[0] == "f" and pr[3] == "total_fees_atr" and pr[2].endswith("ConsensusValues") for pr in st[1][1]):
+                e = chq.rvalue(st[2], 0)
+                if any(x[0] == "bin" and x[1].startswith("Add") for x in __import__("analysis.expr", fromlist=["walk"]).walk(e)):
+                    handling.add(bb)
+    if not queues or not handling:
+        res.add(Finding(R4, "C13.handled|anchors", "the ATR section no longer queues validated unspent outputs / handles them (queue found: %s, handling sites: %d)"
+                        % (bool(queues), len(handling)), gcv.loc(0)))
+    for k, P in queues.items():
+        res.instance(R4)
+        dom = gcv.dominators()
+
+        def headers_of(blocks):
+            return [h for h in range(gcv.nblocks) if all(gcv.dominates(h, x) for x in blocks) and all(h in gcv.reachable(x) for x in blocks)]
+        HL = gcv.innermost_loop_containing(handling)
+        OL = gcv.innermost_loop_containing(P | handling)
+        if HL is None or OL is None or HL == OL:
+            res.not_decided.append("C13.handled: loop structure of the ATR section not recognised")
+            continue
+        empty = _gate.bool_switch_edges(gcv, chq, lambda e: e[0] == "call" and e[1].rsplit("::", 1)[-1] == "is_empty" and e[2] and
+                                        (lambda r: r[0] == "local" and r[1] == k)(__import__("analysis.expr", fromlist=["strip"]).strip(e[2][0])))
+        # a queue that is tested through a reference: fall back to any is_empty() on a Vec of slips
+        if not empty["sites"]:
+            empty = _gate.bool_switch_edges(gcv, chq, lambda e: e[0] == "call" and e[1] == "std::vec::Vec::is_empty")
+        bad = None
+        for p in sorted(P):
+            nxt = gcv.term(p).get("t")
+            path = gcv.find_path(nxt, set(gcv.return_blocks()) | {OL}, deleted_edges=empty["true"], blocked={HL}) if nxt is not None else None
+            if path:
+                bad = (p, path)
+                break
+        if bad:
+            res.add(Finding(R4, "C13.handled|queued-output-skipped", "generate_consensus_values can queue a still-unspent output of an expiring transaction and then move on "
+                            "without rebroadcasting it or collecting it as fees", gcv.loc(bad[1][-2] if len(bad[1]) > 1 else bad[0]), {"queued_at": gcv.loc(bad[0])}))
+            continue
+        # each iteration of the handler loop handles
+        skip = None
+        loop_body = gcv.natural_loop(HL)
+        outside = set(range(gcv.nblocks)) - loop_body
+        for n in gcv.succ(HL):
+            if n in loop_body:
+                pth = gcv.find_path(n, {HL}, blocked=handling | outside)
+                if pth:
+                    skip = pth
+        if skip:
+            res.add(Finding(R4, "C13.handled|iteration-without-handling", "an iteration of the ATR handling loop can finish without rebroadcasting the output or collecting it as fees", gcv.loc(skip[0])))
+        else:
+            res.sample({"rule": R4, "queue": gcv.name_of(k) or "_%d" % k, "queued_at": [gcv.loc(x) for x in sorted(P)][:4], "handler_loop": gcv.loc(HL),
+                        "verdict": "every queued output reaches the handler; every iteration rebroadcasts or collects"})
 
     res.explanation = (
         "Decides that the rebroadcast set is committed and compared: the validator's recomputed rebroadcast hash and rebroadcast-slip count must equal the header's on "
